@@ -613,6 +613,96 @@ unsigned __wrap_sleep(unsigned s)
     return __real_sleep(s);
 }
 
+/* ---- C05: the other ways of sleeping in a system call -----------------------------------------------------------
+   None of them is used by the library as it stands; a change that swaps send()/recv() for write()/read(), reads an
+   eventfd / timerfd that lacks the non-blocking flag, waits in epoll_pwait / pselect / clock_nanosleep or resolves a
+   name with getaddrinfo() inside a call on a non-blocking socket is counted like the ones above.  Descriptor I/O: the
+   wait is counted when the descriptor is not a regular file and lacks O_NONBLOCK; the call is then made with
+   O_NONBLOCK set for its duration, so that the harness survives to report it. */
+#include <sys/uio.h>
+#include <netdb.h>
+static int nb_io_begin(int fd)
+{
+    if (!nb_watch || !in_lib)
+	return 0;
+    struct stat st;
+    if (fstat(fd, &st) < 0 || S_ISREG(st.st_mode) || S_ISDIR(st.st_mode))
+	return 0;
+    int fl = fcntl(fd, F_GETFL);
+    if (fl < 0 || (fl & O_NONBLOCK))
+	return 0;
+    wait_seen++;
+    fcntl(fd, F_SETFL, fl | O_NONBLOCK);
+    return 1;
+}
+static void nb_io_end(int fd, int was)
+{
+    if (was) {
+	int e = errno;
+	int fl = fcntl(fd, F_GETFL);
+	if (fl >= 0)
+	    fcntl(fd, F_SETFL, fl & ~O_NONBLOCK);
+	errno = e;
+    }
+}
+#define NB_IO_WRAP(ret, name, decl, args)				\
+    ret __real_##name decl;						\
+    ret __wrap_##name decl						\
+    {									\
+	int was = nb_io_begin(fd);					\
+	ret r = __real_##name args;					\
+	nb_io_end(fd, was);						\
+	return r;							\
+    }
+NB_IO_WRAP(ssize_t, read, (int fd, void *buf, size_t n), (fd, buf, n))
+NB_IO_WRAP(ssize_t, write, (int fd, const void *buf, size_t n), (fd, buf, n))
+NB_IO_WRAP(ssize_t, readv, (int fd, const struct iovec *iov, int n), (fd, iov, n))
+NB_IO_WRAP(ssize_t, writev, (int fd, const struct iovec *iov, int n), (fd, iov, n))
+NB_IO_WRAP(ssize_t, recvmsg, (int fd, struct msghdr *m, int flags), (fd, m, flags))
+NB_IO_WRAP(ssize_t, sendmsg, (int fd, const struct msghdr *m, int flags), (fd, m, flags))
+NB_IO_WRAP(ssize_t, recvfrom, (int fd, void *buf, size_t n, int flags, struct sockaddr *a, socklen_t *al), (fd, buf, n, flags, a, al))
+NB_IO_WRAP(ssize_t, sendto, (int fd, const void *buf, size_t n, int flags, const struct sockaddr *a, socklen_t al), (fd, buf, n, flags, a, al))
+
+int __real_epoll_pwait(int, struct epoll_event *, int, int, const sigset_t *);
+int __wrap_epoll_pwait(int epfd, struct epoll_event *evs, int maxev, int timeout, const sigset_t *ss)
+{
+    if (nb_watch && in_lib && timeout != 0) {
+	wait_seen++;
+	if (timeout < 0 || timeout > SHIM_WAIT_CAP_MS)
+	    timeout = SHIM_WAIT_CAP_MS;
+    }
+    return __real_epoll_pwait(epfd, evs, maxev, timeout, ss);
+}
+
+int __real_pselect(int, fd_set *, fd_set *, fd_set *, const struct timespec *, const sigset_t *);
+int __wrap_pselect(int n, fd_set *r, fd_set *w, fd_set *x, const struct timespec *ts, const sigset_t *ss)
+{
+    struct timespec cap = { 0, SHIM_WAIT_CAP_MS * 1000000L };
+    if (nb_watch && in_lib && (ts == NULL || ts->tv_sec != 0 || ts->tv_nsec != 0)) {
+	wait_seen++;
+	if (ts == NULL || ts->tv_sec > 0 || ts->tv_nsec > cap.tv_nsec)
+	    ts = &cap;
+    }
+    return __real_pselect(n, r, w, x, ts, ss);
+}
+
+int __real_clock_nanosleep(clockid_t, int, const struct timespec *, struct timespec *);
+int __wrap_clock_nanosleep(clockid_t c, int flags, const struct timespec *req, struct timespec *rem)
+{
+    if (nb_watch && in_lib && req && (req->tv_sec != 0 || req->tv_nsec != 0))
+	wait_seen++;
+    return __real_clock_nanosleep(c, flags, req, rem);
+}
+
+int __real_getaddrinfo(const char *, const char *, const struct addrinfo *, struct addrinfo **);
+int __wrap_getaddrinfo(const char *node, const char *service, const struct addrinfo *hints, struct addrinfo **res)
+{
+    /* the resolver of the C library waits for its answer (files, DNS) inside the call */
+    if (nb_watch && in_lib && node != NULL && !(hints && (hints->ai_flags & AI_NUMERICHOST)))
+	wait_seen++;
+    return __real_getaddrinfo(node, service, hints, res);
+}
+
 FILE *__wrap_fopen(const char *path, const char *mode)
 {
     if (rc_gate(SHIM_RC_OPEN, "fopen")) {
